@@ -464,6 +464,70 @@ def patterns_family(descendant_first: bool = True) -> Family:
     return Family("patterns-" + ("descendant-first" if descendant_first else "ancestor-first"), m, specs)
 
 
+#: two patterns on one value, one of which spells a character of the regular-expression syntax as ``\\xHH`` / ``\\uHHHH``
+#: (the only way to write some of them in the meta-model language), and two controls without such a character
+ESCAPED_PAIRS = [
+    ("^a\\x2ab$", "^[a-z*]+$"), ("^a\\u002ab$", "^[a-b*+]+$"), ("^\\x28a\\x29$", "^[()a]+$"), ("^a\\x7b2\\x7d$", "^[a{}2]+$"),
+    ("^a\\x3fb?$", "^[?ab]+$"), ("^a\\x2bb$", "^[a+b]+$"), ("^[\\x5ea]+$", "^[a-z]+$"),
+    ("^a\\x41b$", "^[a-zA-Z]+$"), ("^a\\.b$", "^[a-z.]+$"),
+]
+
+_ESCAPE_POOL = ["a*b", "ab", "aab", "b", "(a)", "a", "a{2}", "aa", "a?b", "a?", "a+b", "a^", "^", "q", "aAb", "a.b", "axb", "aXb", "a*", "a(", "a2", "a?bb", "a+", "A"]
+
+_META = set("\\[]|().?*+{}^$-")
+_ESCAPE_RE = re.compile(r"\\\\|\\x([0-9a-fA-F]{2})|\\u([0-9a-fA-F]{4})|\\U([0-9a-fA-F]{8})")
+
+
+def escaped_metacharacter_intersected(patterns: Sequence[str]) -> bool:
+    """
+    Two or more patterns constrain the value and one of them writes a character of the regular-expression syntax
+    as ``\\xHH``, ``\\uHHHH`` or ``\\UHHHHHHHH`` — the input shape of finding C13-F1 / C14-F1.
+    """
+    if len(patterns) < 2:
+        return False
+    for p in patterns:
+        for m in _ESCAPE_RE.finditer(p):
+            digits = m.group(1) or m.group(2) or m.group(3)
+            if digits is not None and chr(int(digits, 16)) in _META:
+                return True
+    return False
+
+
+def escapes_family(corpus_entries: Sequence[Dict[str, Any]] = ()) -> Family:
+    """``corpus_entries``: ``{"model_patterns": [...], "valid": text, "mutant": text}`` (witnesses of the findings) come first."""
+    from harness import mm
+
+    fns: List[Any] = []
+    cps: List[Any] = []
+    classes: List[Any] = []
+    specs: List[Spec] = []
+    pairs: List[Tuple[str, ...]] = []
+    for e in corpus_entries:
+        pairs.append(tuple(e["model_patterns"]))
+        for text in (e.get("valid"), e.get("mutant")):
+            if isinstance(text, str) and text not in _ESCAPE_POOL:
+                _ESCAPE_POOL.insert(0, text)
+    pairs += [p for p in ESCAPED_PAIRS if p not in pairs]
+    for k, pair in enumerate(pairs):
+        names = []
+        for j, p in enumerate(pair):
+            names.append(f"matches_e{k}_{j}")
+            fns.append(mm.PatternFn(name=names[-1], parts=(p,), style="plain"))
+        cp = mm.ConstrainedPrimitive(
+            name=f"Escaped_{k}", base="str", bases=[],
+            invariants=[mm.Invariant(f"It matches {j}.", mm.FunctionCall(n, (mm.SELF,))) for j, n in enumerate(names)],
+        )
+        cps.append(cp)
+        position = ("required", "optional", "item")[k % 3]
+        pname = "values" if position == "item" else "value"
+        vt: Any = mm.Ref(cp.name)
+        t = mm.ListOf(vt) if position == "item" else (mm.OptionalOf(vt) if position == "optional" else vt)
+        classes.append(mm.Class(name=f"Esc_{k}", props=[mm.Prop(pname, t)]))
+        specs.append(Spec(f"Esc_{k}", pname, position, "str", None, None, tuple(pair), "", "cp*2" + ("/escaped-metacharacter" if escaped_metacharacter_intersected(pair) else "/control")))
+    m = mm.MM(classes=classes, constrained_primitives=cps, verification_functions=fns, xml_namespace="https://example.com/c14/escapes")
+    return Family("escapes", m, specs)
+
+
 def _ok_text(spec: Spec, s: str, skip: Optional[int] = None) -> List[int]:
     """Indices of the constraints of ``spec`` that ``s`` breaks: 0.. patterns, then len(patterns) = minimum, +1 = maximum."""
     broken = []
@@ -479,13 +543,16 @@ def _ok_text(spec: Spec, s: str, skip: Optional[int] = None) -> List[int]:
 
 
 def pattern_texts(spec: Spec) -> Tuple[Optional[str], List[Tuple[str, str]]]:
-    """(a text meeting all designed constraints, [(kind, text breaking exactly one of them)])."""
-    good = next((s for s in _POOL if not _ok_text(spec, s)), None)
+    """(a text meeting all designed constraints, [(kind, text breaking exactly one of them)]); several texts per pattern for the escape pairs."""
+    escapes = "/escaped-metacharacter" in spec.sources or "/control" in spec.sources
+    pool = _ESCAPE_POOL + _POOL if escapes else _POOL
+    per = 4 if escapes else 1
+    good = next((s for s in pool if not _ok_text(spec, s)), None)
     bad: List[Tuple[str, str]] = []
     n = len(spec.patterns)
     for i in range(n + 2):
-        w = next((s for s in _POOL if _ok_text(spec, s) == [i]), None)
-        if w is not None:
+        ws = [s for s in pool if _ok_text(spec, s) == [i]][:per]
+        for w in ws:
             bad.append((f"pattern-{i + 1}-of-{n}" if i < n else ("length-below-min" if i == n else "length-above-max"), w))
     return good, bad
 
@@ -629,8 +696,9 @@ def reduced(fam: Family, cname: str) -> Family:
     return Family(fam.name + "/" + cname, small, [s for s in fam.specs if s.cls == cname])
 
 
-def enumerated(tier: str = "quick") -> Iterator[Family]:
+def enumerated(tier: str = "quick", corpus_entries: Sequence[Dict[str, Any]] = ()) -> Iterator[Family]:
     yield patterns_family(True)
+    yield escapes_family(corpus_entries)
     for part in range(2):
         yield lists_family(part, 2)
     for part in range(2):
